@@ -163,16 +163,16 @@ def r1_sinks(ctx) -> None:
         impls = [f for q, f in prog.funcs.items() if f.name == gname and f.cls is not None]
         if not impls:
             raise AnalysisError(f"anchor vanished: no method named {gname}")
-        # who references the gated name?
+        # who references the gated name? every reference, wherever it is, must be dominated by the allowing outcome of the predicate
+        gate_callers: set[str] = set()
         for q, fi in sorted(prog.funcs.items()):
             for n in walk_no_nested(fi.node):
                 if isinstance(n, ast.Attribute) and n.attr == gname:
                     loc = f"{fi.module.relpath}:{n.lineno}"
-                    if q != gate_q:
-                        r.violation("C16.R1", q, stmt_head(prog.enclosing_stmt(n)),
-                                    f"{gname} (capability sink wrapper) is referenced outside its gate function {gate_q}", loc)
-                        continue
+                    if fi.name == gname:
+                        continue  # an implementation referring to its base implementation
                     gs = atomic_guards(guards_at(prog, fi, n))
+                    gate_callers.add(q)
                     want = f"self.{pred_name}()"
                     if (want, True) in gs:
                         r.ok("C16.R1", q, f"call of {gname} dominated by {want} == True", loc)
@@ -180,21 +180,24 @@ def r1_sinks(ctx) -> None:
                         r.violation("C16.R1", q, stmt_head(prog.enclosing_stmt(n)),
                                     f"call of {gname} is not dominated by the allowing outcome of {want} "
                                     f"(dominating guards: {gs})", loc)
-        # the refusing branch raises SigmaSecurityError
+        # the refusing branch raises SigmaSecurityError — in the function(s) that hold the gate
         found = False
-        for n in walk_no_nested(gate.node):
-            if isinstance(n, ast.If) and pred_name in unparse(n.test):
-                t = n.test
-                neg = isinstance(t, ast.UnaryOp) and isinstance(t.op, ast.Not)
-                body = n.body if neg else n.orelse
-                found = True
-                if body and isinstance(body[0], ast.Raise) and "SigmaSecurityError" in unparse(body[0]):
-                    r.ok("C16.R1", gate_q, f"refusing outcome of {pred_name} raises SigmaSecurityError",
-                         f"{gate.module.relpath}:{n.lineno}")
-                else:
-                    r.violation("C16.R1", gate_q, stmt_head(n),
-                                f"the refusing outcome of {pred_name}() does not raise SigmaSecurityError",
-                                f"{gate.module.relpath}:{n.lineno}")
+        gates_here = [prog.funcs[x] for x in sorted(gate_callers)] or [gate]
+        for gate in gates_here:
+          gate_q = gate.qual
+          for n in walk_no_nested(gate.node):
+              if isinstance(n, ast.If) and pred_name in unparse(n.test):
+                  t = n.test
+                  neg = isinstance(t, ast.UnaryOp) and isinstance(t.op, ast.Not)
+                  body = n.body if neg else n.orelse
+                  found = True
+                  if body and isinstance(body[0], ast.Raise) and "SigmaSecurityError" in unparse(body[0]):
+                      r.ok("C16.R1", gate_q, f"refusing outcome of {pred_name} raises SigmaSecurityError",
+                           f"{gate.module.relpath}:{n.lineno}")
+                  else:
+                      r.violation("C16.R1", gate_q, stmt_head(n),
+                                  f"the refusing outcome of {pred_name}() does not raise SigmaSecurityError",
+                                  f"{gate.module.relpath}:{n.lineno}")
         if not found:
             r.violation("C16.R1", gate_q, f"gate on {pred_name}", f"gate function no longer tests self.{pred_name}()",
                         gate.loc)
@@ -667,6 +670,56 @@ def _must_pass_since_def(cfg, fi: FuncInfo, name: str, target: int, through: lis
     return True
 
 
+def _interpreted_leak(ctx, fi: FuncInfo, key: str):
+    """fi (a classmethod that builds an object from a document dict and receives the capability ``key`` from its caller)
+    interpreted with a document that carries ``key`` itself. → None if the document's value never reaches a constructor and
+    the caller's does (for the classes that take it); a description of the leak; or 'not interpretable'."""
+    from ..tabulate import Proxy, call_method, Raised
+    prog = ctx.prog
+
+    class TemplateBase:
+        def __init__(self, **kw): self.kw = kw
+
+    class ExternalSourceBaseTransformation:
+        def __init__(self, **kw): self.kw = kw
+
+    class Both(TemplateBase, ExternalSourceBaseTransformation):
+        pass
+
+    class Plain:
+        def __init__(self, **kw): self.kw = kw
+
+    class SigmaConfigurationError(Exception):
+        def __init__(self, *a, **k): super().__init__(*a)
+
+    caps = [p for p in fi.params() if p in ("allow_template_vars", "vars_allowed_paths", "allow_external_sources")]
+    env = {"TemplateBase": TemplateBase, "ExternalSourceBaseTransformation": ExternalSourceBaseTransformation, "SigmaConfigurationError": SigmaConfigurationError}
+    IK = {"behaviours": (SigmaConfigurationError, TypeError), "max_steps": 8000}
+    doc_value, caller = object(), {c: object() for c in caps}
+    built = 0
+    if "transformations" not in fi.params():
+        return "not interpretable"  # the stand-in scenario is written for (document, registry, capabilities…)
+    for K in (TemplateBase, ExternalSourceBaseTransformation, Both, Plain):
+        d = {"type": "t", "id": "x", "other": 1, "rule_conditions": [], key: doc_value}
+        cls = object.__getattribute__(Proxy(prog, fi.cls.qual, env, {}, interp_kwargs=IK), "_k")
+        try:
+            obj = call_method(prog, fi.cls.qual, fi.name, cls, env, d, {"t": K}, interp_kwargs=IK, **caller)
+        except Raised:
+            continue  # refused: nothing was built
+        except (AnalysisError, TypeError):
+            return "not interpretable"
+        built += 1
+        kw = getattr(obj, "kw", None)
+        if not isinstance(kw, dict):
+            return "not interpretable"
+        if any(v is doc_value for v in kw.values()):
+            return f"interpreted with a document that sets {key!r}: the constructor of a {K.__name__} class receives the document's value"
+        takes = (key in ("allow_template_vars", "vars_allowed_paths") and issubclass(K, TemplateBase)) or (key == "allow_external_sources" and issubclass(K, ExternalSourceBaseTransformation))
+        if takes and kw.get(key) is not caller[key]:
+            return f"interpreted: a {K.__name__} class does not receive the caller's {key!r}"
+    return None if built == 4 else "not interpretable"
+
+
 def _r2c(ctx, carriers: dict[str, list[str]]) -> None:
     r, prog, cg = ctx.r, ctx.prog, ctx.cg
     scope_mods = ("sigma.processing", "sigma.pipelines", "sigma.conversion")
@@ -710,6 +763,15 @@ def _r2c(ctx, carriers: dict[str, list[str]]) -> None:
                 okk, why = _key_neutralised(ctx, fi, dict_expr.id, site, f, blocked)
                 if not okk:
                     failing.append((cq, why))
+            if failing and fi.cls is not None and f in fi.params():
+                # the path rule could not prove it: the function is interpreted (sa.tabulate, Proxy) with a document that sets
+                # the capability itself and stand-in carrier classes that record what their constructor receives
+                leaked = _interpreted_leak(ctx, fi, f)
+                if leaked is None:
+                    failing = []
+                    why_ok = " (interpreted: the document's value never reaches a constructor, the caller's value does)"
+                elif leaked != "not interpretable":
+                    failing = [(failing[0][0], leaked)]
             if not failing:
                 r.ok("C16.R2c", fi.qual, f"{short(site, 80)}: key {f!r} cannot reach the constructor of {len(cqs)} carrier class(es) e.g. {cqs[0].rsplit('.', 1)[-1]}", loc)
             else:
@@ -789,6 +851,66 @@ def _is_env_read(n: ast.AST) -> Optional[ast.AST]:
     return None
 
 
+def _predicate_of(prog, fi: FuncInfo, depth: int = 0) -> Optional[str]:
+    """The capability predicate an environment read belongs to: the function itself, or a helper whose every reference in the
+    code base lies in that predicate (or in such a helper of it)."""
+    if fi.qual in PREDICATES:
+        return fi.qual
+    if depth > 2 or fi.cls is None:
+        return None
+    owners = set()
+    for q, g in prog.funcs.items():
+        if q == fi.qual:
+            continue
+        for n in walk_no_nested(g.node):
+            if isinstance(n, ast.Attribute) and n.attr == fi.name:
+                o = _predicate_of(prog, g, depth + 1)
+                if o is None:
+                    return None
+                owners.add(o)
+    return owners.pop() if len(owners) == 1 else None
+
+
+def _pred_truth_table(ctx, fi: FuncInfo, fieldname: str, envname: str) -> Optional[str]:
+    """The predicate interpreted (sa.tabulate, Proxy) over (capability field, value of the environment variable)."""
+    import types as _types
+    from ..tabulate import Proxy, call_method, Raised
+    prog = ctx.prog
+    for fieldval in (False, None, True):
+        for envval in (None, "", "0", "1", "true", "TRUE", "True", "yes", "on", "false", "2", "enabled"):
+            reads: list = []
+
+            class _Env(dict):
+                def get(self, k, d=None):
+                    reads.append(k)
+                    return dict.get(self, k, d)
+                def __getitem__(self, k):
+                    reads.append(k)
+                    return dict.__getitem__(self, k)
+                def __contains__(self, k):
+                    reads.append(k)
+                    return dict.__contains__(self, k)
+            envd = _Env({"OTHER": "1", "PYSIGMA_ALLOW_EVERYTHING": "1"})
+            if envval is not None:
+                envd[envname] = envval
+            osmod = _types.SimpleNamespace(environ=envd, getenv=lambda k, d=None: envd.get(k, d))
+            env = {"os": osmod}
+            IK = {"behaviours": (KeyError,), "max_steps": 2000}
+            # every other field of the object is set (a configured transformation): none of them may open the gate
+            others = {n_: ("/allowed",) if "path" in n_ else "set" for q_ in prog.mro(fi.cls.qual) for n_ in prog.dataclass_fields(q_) if n_ != fieldname}
+            me = Proxy(prog, fi.cls.qual, env, dict(others, **{fieldname: fieldval}), interp_kwargs=IK)
+            try:
+                got = call_method(prog, fi.cls.qual, fi.name, me, env, interp_kwargs=IK)
+            except Raised as ex:
+                return f"{fieldname}={fieldval!r}, {envname}={envval!r}: raises {ex}"
+            want = bool(fieldval) or (envval is not None and envval.lower() in ("1", "true"))
+            if bool(got) is not want or not isinstance(got, bool):
+                return f"{fieldname}={fieldval!r}, {envname}={envval!r}: answers {got!r} instead of {want}" + (" — accepts environment values beyond the documented '1'/'true'" if got and not want else "")
+            if any(k != envname for k in reads):
+                return f"reads the environment variable(s) {sorted(set(reads) - {envname})}, documented is {envname!r}"
+    return None
+
+
 def r3_env(ctx) -> None:
     r, prog = ctx.r, ctx.prog
     r.rule("C16.R3", "the environment is read only inside the two *_allowed predicates, for the documented "
@@ -807,12 +929,13 @@ def r3_env(ctx) -> None:
                 var = const_eval(prog, fi.module, name_e)
             except ValueError:
                 var = None
-            if fi.qual not in PREDICATES:
+            owner = _predicate_of(prog, fi)
+            if owner is None:
                 r.violation("C16.R3", fi.qual, short(n), f"environment variable {var!r} read outside the capability predicates", loc)
-            elif var != PREDICATES[fi.qual][1]:
-                r.violation("C16.R3", fi.qual, short(n), f"predicate reads {var!r}, documented variable is {PREDICATES[fi.qual][1]!r}", loc)
+            elif var != PREDICATES[owner][1]:
+                r.violation("C16.R3", fi.qual, short(n), f"predicate reads {var!r}, documented variable is {PREDICATES[owner][1]!r}", loc)
             else:
-                r.ok("C16.R3", fi.qual, f"reads {var}", loc)
+                r.ok("C16.R3", fi.qual, f"reads {var}" + ("" if owner == fi.qual else f" (helper used only by {owner.rsplit('.', 1)[-1]})"), loc)
     # module-level environment reads
     for m in prog.modules.values():
         if not m.name.startswith(("sigma.processing", "sigma.conversion", "sigma.pipelines")):
@@ -828,13 +951,11 @@ def r3_env(ctx) -> None:
         rets = [n for n in walk_no_nested(fi.node) if isinstance(n, ast.Return)]
         if not rets:
             raise AnalysisError(f"{pq}: no return statement")
-        for rt in rets:
-            loc = f"{fi.module.relpath}:{rt.lineno}"
-            why = _pred_return_ok(ctx, fi, rt, fieldname, envname)
-            if why is None:
-                r.ok("C16.R3", pq, unparse(rt), loc)
-            else:
-                r.violation("C16.R3", pq, short(rt, 140), why, loc)
+        why = _pred_truth_table(ctx, fi, fieldname, envname)
+        if why is None:
+            r.ok("C16.R3", pq, f"interpreted over capability field x environment values: True exactly for a set field or {envname} in ('1', 'true') in any letter case; only {envname} is read", fi.loc)
+        else:
+            r.violation("C16.R3", pq, f"return of {fi.name}: {why}", "the predicate must return True only for its own capability field or the documented environment values '1'/'true'", fi.loc)
         # nobody overrides the predicates
         for q, g in prog.funcs.items():
             if g.name == fi.name and q != pq:
@@ -919,61 +1040,79 @@ def r4_paths(ctx) -> None:
                      "from_yaml derives vars_allowed_paths from source_path when the caller gave none")
     fi = prog.func("sigma.processing.templates.TemplateBase._load_vars_from_file")
     loc = fi.loc
-    pname = [p for p in fi.params() if p != "self"][0]
-    # 1. candidate is realpath'ed before any use
-    defs = assignments_to(fi.node, pname)
-    canon = [v for v in defs if isinstance(v, ast.Call) and call_name(v) in ("os.path.realpath", "realpath") and v.args and unparse(v.args[0]) == pname]
-    if canon and len(canon) == len(defs):
-        r.ok("C16.R4", fi.qual, f"{pname} = os.path.realpath({pname})", loc)
+    # _load_vars_from_file interpreted (sa.tabulate, Proxy; helper methods resolve from the source) over a model file system:
+    # os.path.realpath resolves '..' and two symbolic links, importlib is a recorder. A candidate whose canonical path is
+    # not an allowed base or below one must be refused before anything is loaded; the others are loaded by their canonical path
+    import posixpath as _pp
+    import types as _types
+    from ..tabulate import Proxy, call_method, Raised
+    LINKS = {"/allowed/link.py": "/outside/evil.py", "/base-link": "/allowed", "/allowed/linkdir": "/outside"}
+
+    def realpath(p_):
+        p_ = _pp.normpath(str(p_))
+        for _ in range(4):
+            for src, dst in LINKS.items():
+                if p_ == src or p_.startswith(src + "/"):
+                    p_ = _pp.normpath(dst + p_[len(src):])
+        return p_
+
+    class SigmaSecurityError(Exception):
+        def __init__(self, *a, **k): super().__init__(*a)
+
+    cases = [
+        (("/allowed",), "/allowed/v.py", True), (("/allowed",), "/allowed/sub/deep/v.py", True), (("/allowed",), "/allowed/sub/../v.py", True),
+        (("/allowed",), "/allowedx/v.py", False), (("/allowed",), "/other/v.py", False), (("/allowed",), "/allowed/../other/v.py", False),
+        (("/allowed",), "/allowed/link.py", False), (("/allowed",), "/allowed/linkdir/v.py", False), (("/base-link",), "/allowed/v.py", True),
+        (("/base-link",), "/base-link/v.py", True), (("/x", "/allowed"), "/allowed/v.py", True), (("/x", "/y"), "/allowed/v.py", False),
+        ((), "/allowed/v.py", False), (("/allowed/v.py",), "/allowed/v.py", True), (None, "/anywhere/v.py", True), (("/",), "/anywhere/v.py", None),
+    ]
+    bad = []
+    for bases, cand, allowed in cases:
+        loaded: list = []
+        spec = _types.SimpleNamespace(loader=_types.SimpleNamespace(exec_module=lambda m: loaded.append(("exec", m.path))))
+        def sffl(name, path, *a, **k):
+            loaded.append(("spec", path))
+            spec.path = path
+            return spec
+        def mfs(sp):
+            m = _types.SimpleNamespace(path=sp.path, vars={"v": 1})
+            loaded.append(("module", sp.path))
+            return m
+        class _PathMod:  # os.path over the model: only realpath follows links; the pure text functions are posixpath's
+            sep = "/"
+            abspath = staticmethod(lambda p_: _pp.normpath(str(p_)))
+            def __getattr__(self, name):
+                if name in ("exists", "isfile", "isdir", "islink", "lexists"):
+                    return lambda p_: True
+                if name in ("dirname", "basename", "join", "normpath", "commonpath", "commonprefix", "split", "splitext", "isabs", "relpath", "normcase"):
+                    return getattr(_pp, name)
+                raise AttributeError(name)
+        _PathMod.realpath = staticmethod(realpath)
+        osmod = _types.SimpleNamespace(path=_PathMod(), sep="/", fspath=str)
+        env = {"os": osmod, "importlib": _types.SimpleNamespace(util=_types.SimpleNamespace(spec_from_file_location=sffl, module_from_spec=mfs)), "sys": _types.SimpleNamespace(modules={}),
+               "SigmaSecurityError": SigmaSecurityError, "cast": lambda t, v: v, "FileNotFoundError": FileNotFoundError, "OSError": OSError, "ValueError": ValueError}
+        IK = {"behaviours": (SigmaSecurityError, ValueError), "max_steps": 8000}
+        me = Proxy(prog, "sigma.processing.templates.TemplateBase", env, {"vars_allowed_paths": bases, "allow_template_vars": True, "vars": cand}, interp_kwargs=IK)
+        try:
+            call_method(prog, "sigma.processing.templates.TemplateBase", "_load_vars_from_file", me, env, cand, interp_kwargs=IK)
+            refused = False
+        except Raised as ex:
+            refused = "SigmaSecurityError" in str(ex)
+            if not refused:
+                bad.append(f"allowed {bases!r}, vars file {cand!r}: raises {ex}")
+                continue
+        if allowed is None:
+            continue  # the root directory as base: known discrepancy of the prefix test, not part of this rule
+        canon = realpath(cand)
+        if allowed and (refused or ("spec", canon) not in loaded):
+            bad.append(f"allowed {bases!r}, vars file {cand!r} (canonical {canon!r}): {'refused' if refused else 'loaded as ' + repr(loaded[:1])} although it lies inside an allowed base")
+        if not allowed and (not refused or loaded):
+            bad.append(f"allowed {bases!r}, vars file {cand!r} (canonical {canon!r}): {'loaded ' + repr(loaded[:1]) if loaded else 'not refused'} although it lies outside every allowed base")
+    if not bad:
+        r.ok("C16.R4", fi.qual, f"interpreted on {len(cases)} (allowed bases, vars file) cases over a model file system with '..' and symbolic links: containment is decided on canonical paths (base + separator or equality), a file outside is refused with SigmaSecurityError before anything is loaded", loc)
+        r.ok("C16.R4", fi.qual, "files inside an allowed base are loaded by their canonical path; no restriction without configured bases", loc)
     else:
-        r.violation("C16.R4", fi.qual, f"canonicalisation of {pname}", "the vars path is not (only) re-bound to its os.path.realpath before the containment test", loc)
-    cfg = cfg_of(fi)
-    canon_nodes = [n for v in canon for n in cfg.node_of_expr(v, prog.parent)]
-    # 2. containment test
-    test_if = None
-    for n in walk_no_nested(fi.node):
-        if isinstance(n, ast.If) and "vars_allowed_paths" in unparse(n.test) and "is not None" in unparse(n.test):
-            test_if = n
-    if test_if is None:
-        r.violation("C16.R4", fi.qual, "if self.vars_allowed_paths is not None", "containment block not found", loc)
-        return
-    inner = [n for n in test_if.body if isinstance(n, ast.If)]
-    if not inner:
-        r.violation("C16.R4", fi.qual, stmt_head(test_if), "containment test missing inside the allowed-paths block", loc)
-        return
-    chk = inner[0]
-    t = chk.test
-    tloc = f"{fi.module.relpath}:{chk.lineno}"
-    problems = _containment_ok(t, pname)
-    if problems:
-        r.violation("C16.R4", fi.qual, short(t, 200), problems, tloc)
-    else:
-        r.ok("C16.R4", fi.qual, short(t, 200), tloc)
-    if not (chk.body and isinstance(chk.body[0], ast.Raise) and "SigmaSecurityError" in unparse(chk.body[0])):
-        r.violation("C16.R4", fi.qual, stmt_head(chk), "failed containment does not raise SigmaSecurityError", tloc)
-    else:
-        r.ok("C16.R4", fi.qual, "failed containment raises SigmaSecurityError", tloc)
-    # 3. the containment block dominates every loading/executing call, and is after canonicalisation
-    test_nodes = cfg.nodes_of(test_if.test)
-    for c in (n for n in walk_no_nested(fi.node) if isinstance(n, ast.Call)):
-        d = call_name(c)
-        if d.endswith(("spec_from_file_location", "module_from_spec", "exec_module", "load_module")) or d in ("exec", "eval", "open", "compile"):
-            cl = f"{fi.module.relpath}:{c.lineno}"
-            ok_all = True
-            for nid in cfg.node_of_expr(c, prog.parent):
-                if not cfg.is_reachable(nid):
-                    continue
-                if not cfg.must_pass(nid, test_nodes):
-                    ok_all = False
-                if canon_nodes and not cfg.must_pass(nid, canon_nodes):
-                    ok_all = False
-            if ok_all:
-                r.ok("C16.R4", fi.qual, f"{d}: dominated by realpath + containment test", cl)
-            else:
-                r.violation("C16.R4", fi.qual, short(c, 100), "loading/execution of the vars file is reachable without passing the containment test on the canonical path", cl)
-    for nid in test_nodes:
-        if canon_nodes and not cfg.must_pass(nid, canon_nodes):
-            r.violation("C16.R4", fi.qual, stmt_head(test_if), "containment test can run before the candidate path is canonicalised", tloc)
+        r.violation("C16.R4", fi.qual, f"containment: {bad[0]}", f"{len(bad)} of {len(cases)} interpreted cases deviate: realpath must be applied to the candidate and every base, containment is startswith(base + os.sep) or equality, and the SigmaSecurityError raise must dominate loading/executing the file", loc)
     # 4. from_yaml derives the allowed base from source_path
     fy = prog.func("sigma.processing.pipeline.ProcessingPipeline.from_yaml")
     derived = False
@@ -1008,7 +1147,7 @@ def r4_paths(ctx) -> None:
         r.ok("C16.R4", rp.qual, "from_yaml(..., source_path=spec)", rp.loc)
     else:
         r.violation("C16.R4", rp.qual, "ProcessingPipeline.from_yaml(f.read(), source_path=spec)", "the resolver does not hand the pipeline file's location to from_yaml; no allowed base is derived", rp.loc)
-    r.floor("C16.R4", 6)
+    r.floor("C16.R4", 4)
 
 
 def _containment_ok(t: ast.AST, pname: str) -> Optional[str]:
